@@ -317,7 +317,7 @@ func init() {
 			}
 			return genC05(mixSeed(seed, uint64(idx)), withSpec)
 		},
-		Run: runC05,
+		Run:       runC05,
 		QuickRuns: 4500, ThoroughS: 1500,
 		Rule: "one run = 2..8 (occasionally 16..64) simulated caller goroutines, each a short list of calls: AgainstSchema on own or shared $ref-free schemas, a shared long-lived non-recycling validator, recycling param/header validators, value helpers, SetContinueOnErrors / NewSpecValidator, whole-spec validation of distinct documents, " +
 			"plus an intruder task of tiny recycling validations; seeded schedule (random / priority / chaser / round-robin) with scheduling points at every pool, mutex and atomic operation of package validate, seeded simulated pool shared by all tasks; built with -race; " +
